@@ -199,7 +199,7 @@ func (c08) Describe() CheckInfo {
 		},
 		RealCode:       []string{"gopatch main(), loader, internal/parse (section splitter, meta parser), internal/pgo (augmenter), internal/engine, patch.Parse/File.Apply"},
 		Stubs:          []string{"package os (patch delivered through simulated files and a chunked simulated stdin)", "path/filepath walk", "io/ioutil"},
-		RequiredProbes: []string{"trunc-patch", "trunc-target", "flip-patch", "flip-target", "cross", "read-error-fired", "ill-typed", "op-fault", "ill-cross", "scale", "two-change", "bulk", "bulk-memory-measured", "patch-list-layouts", "cli-forms", "tree", "tree-symlink-cycle", "patch-rejected", "patch-accepted", "stdin-short-reads", "api-parse", "api-apply"},
+		RequiredProbes: []string{"trunc-patch", "trunc-target", "flip-patch", "flip-target", "cross", "read-error-fired", "ill-typed", "op-fault", "ill-cross", "scale", "two-change", "bulk", "bulk-memory-measured", "patch-list-layouts", "cli-forms", "stdin-is-a-terminal", "tree", "tree-symlink-cycle", "patch-rejected", "patch-accepted", "stdin-short-reads", "api-parse", "api-apply"},
 	}
 }
 
@@ -462,6 +462,12 @@ func (c08) Gen(env *Env, seed uint64, tier string, i int) *Case {
 	c.Targets = []string{"."}
 	c.Spec.Knobs.FileChunk = -r.Range(1, 512)
 	c.RebuildArgs()
+	if via != "stdin" && r.Chance(1, 2) {
+		// patches come from -p/-P: standard input is the user's terminal and must
+		// not be waited for
+		c.Spec.Knobs.StdinBlocks = true
+		c.Extra["stdin_terminal"] = "1"
+	}
 	return c
 }
 
@@ -553,6 +559,9 @@ func (c08) Eval(env *Env, c *Case) (vs []Violation) {
 	if c.Extra["list_style"] != "" {
 		env.Probe("patch-list-layouts")
 	}
+	if c.Extra["stdin_terminal"] == "1" {
+		env.Probe("stdin-is-a-terminal")
+	}
 	if c.Extra["symlink_cycle"] == "1" {
 		env.Probe("tree-symlink-cycle")
 	}
@@ -614,6 +623,8 @@ func (c08) Eval(env *Env, c *Case) (vs []Violation) {
 		add("panic", NormalizePanic(r.Panic)+"@"+InnermostRepoFunc(r.Stack), fmt.Sprintf("gopatch panicked: %s\n%s", r.Panic, clip(r.Stack, 1500)))
 	case OutNoProgress:
 		add("no-progress", r.Spin, fmt.Sprintf("gopatch made no progress: step budget of %d steps exhausted, spinning in %s\n%s", DefaultBudget, r.Spin, clip(r.Stack, 1200)))
+	case OutBlocked:
+		add("no-progress", "blocked-reading-stdin@"+InnermostRepoFunc(r.Stack), fmt.Sprintf("gopatch reads standard input although its patches were named on the command line; standard input is a terminal that never delivers end of file, so it waits for ever\n%s", clip(r.Stack, 1200)))
 	case OutExit:
 		if r.Exit != 0 && len(bytes.TrimSpace(r.Stderr)) == 0 {
 			add("silent-failure", "exit-nonzero-no-diagnostic", fmt.Sprintf("exit status %d with an empty stderr", r.Exit))
